@@ -35,7 +35,7 @@ def _h(*arrs):
 
 def _split_fp(s): return (sorted((int(k.user_id), tuple(int(i) for i in il.ids())) for k, il in s.test.items()), s.train.interaction_count)
 
-def _result(op, seed, ds):
+def _result(op, seed, ds, options=None):
     """one seeded execution, reduced to a comparable value"""
     from lenskit import splitting as sp
     from lenskit.data import ItemList
@@ -74,7 +74,7 @@ def _result(op, seed, ds):
              "iknn": lambda: ItemKNNScorer(max_nbrs=5, save_nbrs=4, block_size=bs), "uknn": lambda: UserKNNScorer(max_nbrs=5), "funk": lambda: FunkSVDScorer(features=3, epochs=2),
              "flex-e": lambda: FlexMFExplicitScorer(embedding_size=3, epochs=1), "flex-i": lambda: FlexMFImplicitScorer(embedding_size=3, epochs=1),
              "bsvd": lambda: BiasedSVDScorer(embedding_size=3), "bias": lambda: BiasScorer()}[name]()
-        m.train(ds, TrainingOptions(rng=seed))
+        m.train(ds, options if options is not None else TrainingOptions(rng=seed))
         arrs = {"als": lambda: (m.user_features_, m.item_features_), "ials": lambda: (m.user_features_, m.item_features_), "iknn": lambda: (m.sim_matrix_,),
                 "uknn": lambda: (m.user_vectors_,), "funk": lambda: (m.user_features_, m.item_features_), "flex-e": lambda: (m.model.u_embed.weight, m.model.i_embed.weight),
                 "flex-i": lambda: (m.model.u_embed.weight, m.model.i_embed.weight), "bsvd": lambda: (m.user_components_, m.factorization_.components_),
@@ -141,6 +141,18 @@ def run(case: dict, lean: Lean) -> Outcome:
         return Outcome(False, False, tuple(classes + ["raised"]), {"error": type(e).__name__ + ": " + str(e)[:80]}, None)
     finally:
         set_global_rng(None)
+    if op.startswith("train:") and not failed:
+        # a seed is a value: one options object carrying it, handed to two trainings (and asked for its generator twice), means "start from
+        # that seed" each time
+        try:
+            from lenskit.training import TrainingOptions
+            shared = TrainingOptions(rng=seed)
+            g1 = shared.random_generator().integers(1 << 30, size=4).tolist(); g2 = shared.random_generator().integers(1 << 30, size=4).tolist()
+            if g1 != g2: failed.append("TrainingOptions.random_generator(): two calls on one options object give different streams for the same seed")
+            c = _result(op, seed, ds, options=shared); d = _result(op, seed, ds, options=shared)
+            if c != d or c != a: failed.append(f"{op}: trainings that share one options object (seed {seed}) differ from each other or from a training with its own")
+        except Exception as e:
+            failed.append(f"{op}: training with a shared options object raised {type(e).__name__}")
     if a != b:
         failed.append(f"{op}: two executions with seed {seed} differ")
         key = {"sample_users_fallback": "sample_users falls back to crossfold_users without the generator", "train:bsvd": "BiasedSVDScorer ignores the training seed"}.get(op)
